@@ -1,15 +1,18 @@
 #!/bin/sh
-# runs every filed seed against the quick check of the listed properties; prints one line per (seed, property)
+# usage: tools/seed_matrix.sh C01-a:C01,C14 C02-b:C02,C19 ...
+# Runs every listed filed seed (seeded/<seed>/patch.diff) against the quick check of the listed properties on a scratch
+# copy of /repo (VERIF_REPO); /repo itself is not touched. One line per (seed, property).
 for spec in "$@"; do
   seed=${spec%%:*}; props=$(echo ${spec#*:} | tr ',' ' ')
-  cd /repo && git diff --quiet || { echo "dirty /repo"; exit 3; }
-  git apply /verif/seeded/$seed/patch.diff || { echo "$seed: patch does not apply"; continue; }
+  d=$(mktemp -d /tmp/srepo.XXXXXX)
+  rsync -a --exclude .git --exclude '__pycache__' /repo/ "$d/"
+  (cd "$d" && patch -s -p1 < /verif/seeded/$seed/patch.diff) || { echo "$seed: patch does not apply"; rm -rf "$d"; continue; }
   for p in $props; do
-    out=$(cd /verif && bin/check $p --tier quick 2>&1)
+    out=$(cd /verif && VERIF_REPO="$d" bin/check $p --tier quick 2>&1)
     rc=$?
     nv=$(echo "$out" | grep -c '^VIOLATION')
-    first=$(echo "$out" | grep -A1 '^VIOLATION' | grep 'obligation=' | head -1 | sed 's/ ::.*//' | cut -c1-150)
+    first=$(echo "$out" | grep 'obligation=' | sed 's/ witness=.*//; s/ *obligation=//' | head -3 | tr '\n' ' ' | cut -c1-260)
     echo "$seed $p exit=$rc violations=$nv $first"
   done
-  cd /repo && git checkout -- .
+  rm -rf "$d"
 done
